@@ -9,10 +9,13 @@ LEVEL_TEXT["C01"] = (
     "T01.7 rfftPacked_eq: RealFftPlan's packed transform (half-length complex plan + untangling, Nyquist bin, mirrored upper half) is the DFT of the real input "
     "for every even n, given a DFT of size n/2; T01.8 the DFT of a real sequence is conjugate symmetric and complex(x) denotes the same sequence; "
     "T01.9 fftCN_eq / fftRN_eq: fft(x, n') is the DFT of x zero-padded / truncated to n' (all three branches); "
-    "T01.10 fftPrime_eq, fftLeaf_eq, fftFactor_eq, fftC_eq_partial, fftR_eq_partial: plan selection (small / prime / power of two / factor tree; real: small / "
-    "prime / packed even / odd composite) glued to the kernels -- with the components NOT proved as explicit hypotheses on the branch that uses them: "
-    "the bit-reversal + butterfly network of Pow2FftPlan for n = 2^l >= 16 (T01.3), Bluestein's identity for primes > 41 (T01.6), well-formedness of mkPlan "
-    "(mkPlan_wf); unconditional where they are not needed: n in {1,2,4,8}, every prime 3..41, and worked composite instances (fftC_eq_60, fftR_eq_120, fftCN_eq_60). "
+    "T01.3 (Props/C01Pow2) pow2fft_eq: the bit-reversal table built by doubling (bitrevTable_getD) and the log2 n butterfly stages of Pow2FftPlan are the DFT for every "
+    "power of two n >= 16; T01.6 (Props/C01Czt) czt_eq / cztPrime_hczt: Bluestein's chirp identity, the no-wrap circular convolution through the padded power-of-two "
+    "transforms and the final chirp multiplication give sum_j x[j] a^-j w^(jk) for |w| = 1, hence the DFT at every prime length > 41; (Props/C01Plan) mkPlan_wf: the factor tree "
+    "built by the planner (trial factorisation, sorting, split into P x Q) is well formed for every 2 <= n < 2^31; "
+    "T01.10 (Props/C01Total) fftC_eq / fftR_eq, UNCONDITIONAL: for every 0 < n < 2^31 the plan selection (small / prime / power of two / factor tree; real: small / prime / packed even / "
+    "odd composite) glued to those components is the DFT of its input (fftCN_eq_total / fftRN_eq_total for fft(x, n'), fftR_conj_symm_total, fftR_eq_fftC_total for the real-input clauses); "
+    "the *_partial forms with the components as hypotheses are kept as the intermediate statements. "
     "Tie: correspondence of the model at Float with the library (bit-identical on every fft/rfft/fftn/rfftn case observed; czt and lengths through the prime-CZT "
     "differ only by the long-double chirp phase of the library). Measured only: the 32 n eps relative l2 bound (and the czt bound of DESIGN.md) against a long-double direct DFT."
 )
@@ -36,16 +39,35 @@ PROPS["C01"] = {
             "(thorough), complex, real and rfft; czt: 600 (quick) / 6000 (thorough) cases, exhaustive (n,m) in 1..8 corner, random n,m <= 64 (every 10th thorough case "
             "<= 300), w on the unit circle (DFT contour, inverse contour, w = -1, w = 1, random), a in {1, 1+ulp, |a| in [0.5,2] random, |a| in {0.5,2}, |a| = 1}, "
             "free function and CztPlan, bound 32 n2 eps sqrt(m) ||x_j a^-j||_2, plus the fixed former counterexample (n=56, m=2, w=-1, impulse at 55). "
+            "czt PARAMETER CLASSES (800 quick / 8000 thorough cases, same bound, reference a^-j in polar long-double form cross-checked against repeated multiplication): "
+            "real and imaginary part of a INDEPENDENTLY from {0, -0, 1, -1, 1+ulp, 1-ulp, -1-ulp, 0.5, -0.5, +-random} (all 121 pairs but a = 0; counted: cases where the real "
+            "part alone is within an ulp of 1), a = 1 + delta in 6 directions for delta in {eps/2 .. 1e-4} with few outputs and long inputs (the code's abs(a-1) > eps(a.re) test), "
+            "a == w, a == conj(w), w in {DFT contour, inverse contour, exact 1 / -1 / (-1,-0) / i / -i, real (imaginary) part alone special with the other part 1e-9, |w| = 1 + ulp, "
+            "a/|a|, random}, (n, m) in {<= 8, m = n, m = 1, n = 1, m + n - 1 = 2^k - 1 / 2^k / 2^k + 1, prime x pow2, pow2 x prime, prime x prime, m < n, m > n}, inputs {complex, "
+            "real, real with -0 imaginary parts, 1e+-150 dynamic range, last-sample impulse, constant, 1e-290 scale, 1e100 scale}, entry points czt(), CztPlan, CztPlan second "
+            "call / copy of a used plan whose original is destroyed, CztPlan after a rejected (wrong-size) call; |w| != 1 (outside the domain) goes through CORR only. "
+            "MAGNITUDE CLASSES for every entry point {fft(arr_cmplx), FftPlan, fft(arr_real), rfft, FftPlanR, fft(complex(x)), fft(x, n') / rfft(x, n') of the non-zero prefix}, "
+            "plan objects used after a rejected call and as copy-constructed / copy-assigned copies: every n in 1..96 (quick) / 1..1024 (thorough) + structured larger lengths "
+            "(quick to 98304 = 2*49152, thorough to 2^18, 3*2^16, 3*49152, primes 65537 / 131071, 2*46349): real impulses of height {0.9, 0.6, 0.5(1+2^-20), 0.26} S at positions "
+            "{0, 1, n-1, n/2, random even, random odd, random}, two / three real samples, complex impulses and pairs, dense real / complex vectors, all with l1 norm <= 0.95 S (so every "
+            "partial sum of every bin stays below S), at S = DBL_MAX (result must be finite and within 32 n eps; lengths with a Bluestein leaf: the same demand at S = DBL_MAX/(8 sqrt n); at S = DBL_MAX a non-finite result "
+            "there is the known finding C01:cztleaf-top-of-range-nonfinite, a finite one must be accurate, see level_note), S = 1e-300, S = DBL_MIN, 2^-1054, 2^-1072 (denormal range: additional absolute allowance 12 n denormal steps, 24 n with a Bluestein "
+            "leaf; the unchanged library uses <= 10% of it); all-(+0), all-(-0), mixed zero inputs -> every output component is a zero; samples replaced by -0.0 -> same values as with +0.0. "
+            "ALIASING: x = fft(x) and x = plan(x) bit-identical to a distinct destination (every n, Gaussian and dynamic-range inputs). "
             "CORR: Gaussian complex+real vectors for every n <= 512 and all 8 classes for n <= 40 (full vectors), digests (8 bins + 4 weighted sums of a generated "
             "input) for every n in 513..4096 (thorough) and 8 / 40 sampled large lengths, fft(x,n') for n <= 12 and n = 16, 24, ..., about half (quick) / a tenth "
-            "(thorough) of the czt cases. distinct = distinct protocol lines; non-trivial = all",
+            "(thorough) of the czt cases, the czt parameter-class cases with n, m <= 64 (half quick / an eighth thorough + every a = 1 + delta case), every third (quick) / ninth "
+            "(thorough) magnitude-class signal and the zero inputs for n <= 64 (not the denormal scales at Bluestein lengths). distinct = distinct protocol lines; non-trivial = all",
     "technique": "Lean 4 proof over an index-map model generic in the scalar (run at Float by the driver, reasoned about at R with toC : Cx R -> C) "
                  "+ differential correspondence on the real library + long-double direct-DFT oracle with the property's own bound",
     "level_note": "floating-point rounding is measured, not proved (32 n eps bound checked by the oracle); the model is hand-written (in-place butterflies / transposes -> "
-                  "index maps over immutable arrays) and tied to the code by the correspondence run, the small kernels are regenerated from the source; NOT proved: "
-                  "T01.3 (bit-reversal table + butterfly stages of Pow2FftPlan), T01.6 (Bluestein/CZT identity), mkPlan_wf (PlanTree is well formed for every n) -- they "
-                  "appear as explicit hypotheses of fftC_eq_partial / fftR_eq_partial and are covered only by CORR + ORACLE; the library's long-double chirp phase (czt) is "
-                  "modelled by the mathematically identical double expression",
+                  "index maps over immutable arrays) and tied to the code by the correspondence run, the small kernels are regenerated from the source; n >= 2^31 is outside the theorems (int lengths); "
+                  "the library's long-double chirp phase (czt) is "
+                  "modelled by the mathematically identical double expression. KNOWN FINDING C01:cztleaf-top-of-range-nonfinite (property violated, not repaired): for lengths with a prime factor > 41 (Bluestein leaf) the "
+                  "library returns NaN for finite inputs above ~0.8 DBL_MAX/sqrt(n2) although the exact DFT is finite (impulse 0.0716 DBL_MAX at n = 43, 0.0149 DBL_MAX at n = 1031, "
+                  "0.00195 DBL_MAX at n = 65537): the frequency-domain product with the chirp spectrum overflows. The oracle reports exactly the class {Bluestein leaf, l1 norm of the "
+                  "input above DBL_MAX/(8 sqrt n), exact DFT representable, result non-finite} under that one key (one line per entry point and run, with the count); finite results "
+                  "there must still be accurate, and everything below DBL_MAX/(8 sqrt n) or at lengths without a Bluestein leaf is judged under the mag-top-* keys",
     "trusted_base": TB_COMMON + [
         "long double (x87 80-bit) direct DFT with long-double sin/cos twiddles is taken as exact relative to the 32 n eps double-precision bound",
         "for lengths above 4096 the non-closed-form input classes are checked on 256 sampled bins (a lower bound of the l2 error, never extrapolated) plus Parseval / bin-sum over all bins",
